@@ -1,5 +1,6 @@
 import HotstuffModel.Model.Aggregator
 import HotstuffModel.Model.Leader
+import HotstuffModel.Generated.Switches
 /-
 One consensus node = `Core` + `Proposer` + consensus `Synchronizer` + `PayloadWaiter` + `Helper`
 and the channels between them (consensus/src/{core,proposer,synchronizer,mempool,helper}.rs),
@@ -21,6 +22,7 @@ inductive PanicSite where
   | missingAncestorDelivered  -- synchronizer.rs get_ancestors: "We should have all ancestors of delivered blocks"
   | nextLeaderNotInCommittee  -- core.rs process_block: "The next leader is not in the committee"
   | authorNotInCommittee      -- synchronizer.rs: "Author of valid block is not in the committee"
+  | helperNotABlock           -- helper.rs: "Failed to deserialize our own block"
   deriving Repr, Inhabited, DecidableEq
 
 /-- Why a round was entered (C10). -/
@@ -357,7 +359,10 @@ def helperStep (c : Committee) (s : Node) (d : Digest) (origin : Nat) : Node :=
   else match s.readBlock d with
     | .found b => s.emit (.helperReply origin b)
     | .missing => s
-    | .corrupt => s   -- a stored entry that is not a block (a batch) is skipped
+    | .corrupt =>
+      -- a stored entry that is not a block (a batch: the store is shared with the mempool) is
+      -- skipped, or `expect`ed, depending on what helper.rs currently does (Generated/Switches)
+      if Gen.helperSkipsNonBlock then s else s.fail .helperNotABlock
 
 /-! ### the micro-step -/
 
